@@ -86,6 +86,7 @@ type taskRec struct {
 	returnedStep int  // step at which the submission was first seen returned (-1: not yet)
 	cancelStep   int  // step at which its own context was cancelled (-1: never)
 	ctxDoneEver  bool // the task's or the pool's context was done at some point (monitor bookkeeping)
+	next         *taskRec // the same *Task object was handed to the pool again (after a TryDo that returned false on a saturated pool): the attempt that now owns it
 }
 
 type scenario struct {
@@ -234,7 +235,24 @@ func (r *runState) observe(step int) {
 	}
 }
 
-func (r *runState) submit(kind, ctxKind string) {
+func (r *runState) submit(kind, ctxKind string) { r.submitTask(kind, ctxKind, nil) }
+
+// retryCandidate: the latest task object that TryDo turned away because the pool was saturated (false, no result, never executed) and that
+// has not been handed over again: the usual fallback `if !pool.TryDo(t) { pool.Do(t) }` submits the SAME object a second time
+func (r *runState) retryCandidate() *taskRec {
+	r.mu.Lock()
+	defer r.mu.Unlock()
+	for i := len(r.tasks) - 1; i >= 0; i-- {
+		t := r.tasks[i]
+		if t.kind == "try" && t.returned && !t.tryRes && t.next == nil && t.id%3 == 0 && t.task != nil && t.nres() == 0 &&
+			atomic.LoadInt32(&t.execs) == 0 && (t.ctxKind == "pool" || t.ctxKind == "never") {
+			return t
+		}
+	}
+	return nil
+}
+
+func (r *runState) submitTask(kind, ctxKind string, reuse *taskRec) {
 	id := len(r.tasks)
 	tr := &taskRec{id: id, kind: kind, ctxKind: ctxKind, gate: make(chan struct{}), returnedStep: -1, cancelStep: -1, resStep: -1, submitAt: r.step}
 	switch ctxKind {
@@ -253,13 +271,17 @@ func (r *runState) submit(kind, ctxKind string) {
 		tr.ctx = context.Background()
 	}
 	exec := func(ctx context.Context) (interface{}, error) {
-		atomic.AddInt32(&tr.execs, 1)
-		tr.sawCtx = ctx
-		<-tr.gate
-		if id%4 == 3 {
-			return id, tr.execErr // the executor's own error travels with its value
+		rec := tr
+		for rec.next != nil {
+			rec = rec.next // the task object was handed over again: the execution belongs to the attempt that owns it now
 		}
-		return id, nil
+		atomic.AddInt32(&rec.execs, 1)
+		rec.sawCtx = ctx
+		<-rec.gate
+		if rec.id%4 == 3 {
+			return rec.id, rec.execErr // the executor's own error travels with its value
+		}
+		return rec.id, nil
 	}
 	tr.execErr = &execError{id}
 	// three equivalent routes through the API, chosen by task id: NewTask+Do/TryDo, Execute*/TryExecute* with an explicit
@@ -267,6 +289,14 @@ func (r *runState) submit(kind, ctxKind string) {
 	route := id % 3
 	if route == 0 {
 		tr.task = workerpool.NewTask(tr.ctx, exec)
+	}
+	if reuse != nil {
+		// second submission of the same object (its own context is the one it was created with)
+		route = 0
+		tr.ctx, tr.task = reuse.ctx, reuse.task
+		r.mu.Lock()
+		reuse.next, reuse.task = tr, nil // the first attempt stays what it was: refused, never executed, no result
+		r.mu.Unlock()
 	}
 	r.tasks = append(r.tasks, tr)
 	gate := r.burstGate
@@ -350,10 +380,21 @@ func (r *runState) runScenario() {
 				continue
 			}
 		}
+		var reuse *taskRec
+		if f[0] == "retry" {
+			// "retry do|try": hand the task object of an earlier saturated TryDo to the pool again; a fresh pool-context task when there is none
+			reuse = r.retryCandidate()
+			ck := "pool"
+			if reuse != nil {
+				ck = reuse.ctxKind
+			}
+			f = []string{f[1], ck}
+			a = f[0] + " " + ck
+		}
 		fmt.Fprintf(r.tr, "act %s\n", a)
 		switch f[0] {
 		case "do", "try":
-			r.submit(f[0], f[1])
+			r.submitTask(f[0], f[1], reuse)
 		case "burst":
 			// several submissions released at the same instant: their steps interleave on the real scheduler
 			n, _ := strconv.Atoi(f[1])
@@ -449,6 +490,15 @@ func (r *runState) runScenario() {
 	var fin []string
 	for _, t := range r.tasks {
 		kind := "none"
+		if t.next != nil {
+			// this attempt was turned away by TryDo (saturated) and its task object was handed over again: the object's result belongs to the
+			// later attempt; this one must not have been executed
+			if atomic.LoadInt32(&t.execs) != 0 {
+				r.fail("C04 task %d was refused by TryDo (false, no error result) but was executed", t.id)
+			}
+			fin = append(fin, fmt.Sprintf("%d:%s", t.id, kind))
+			continue
+		}
 		if t.task == nil {
 			r.fail("C12 submission of task %d still blocked after Stop", t.id)
 			continue
@@ -517,6 +567,12 @@ func (r *runState) runScenario() {
 		}
 		if t.accepted && kind == "none" {
 			r.fail("C12 accepted task %d never received a result (executions %d)", t.id, atomic.LoadInt32(&t.execs))
+			// accepted by a pool that was running, with no context done when the submission returned: it had to be executed
+			started := r.startStep >= 0 && (r.poolDoneStep < 0 || r.startStep < r.poolDoneStep)
+			ctxDone := t.returnedStep < 0 || (r.poolDoneStep >= 0 && r.poolDoneStep <= t.returnedStep) || (t.cancelStep >= 0 && t.cancelStep <= t.returnedStep)
+			if started && !ctxDone && atomic.LoadInt32(&t.execs) == 0 {
+				r.fail("C04 task %d was accepted by a running pool (its %s returned at step %d, no context was done) but was never executed and never received a result", t.id, t.kind, t.returnedStep)
+			}
 		}
 		if !t.returned {
 			r.fail("C12 submission of task %d still blocked after Stop", t.id)
@@ -564,6 +620,15 @@ func genScenario(rng *rand.Rand) scenario {
 				own[ntask] = true
 			}
 			ntask++
+			if kind == "try" && rng.Intn(2) == 0 {
+				// the usual fallback after a TryDo: the same task object is submitted again (only if that TryDo returns false on a saturated pool)
+				if rng.Intn(3) == 0 {
+					sc.actions = append(sc.actions, fmt.Sprintf("advance %d", 1))
+				}
+				sc.actions = append(sc.actions, "retry "+[]string{"do", "do", "try"}[rng.Intn(3)])
+				running[ntask] = true
+				ntask++
+			}
 		case r < 47 && sc.limit > 0 && nbursts < 2: // (at most two bursts: every blocked submitter multiplies the acceptor's state sets)
 			nbursts++
 			k := 2 + rng.Intn(2)
